@@ -58,6 +58,12 @@ package types
 //@ func (cb TSSCallback) OnSigningCompleted
 //@ trusted
 //@ modifies Other, Bank
+// the time-out callback penalises idle members: through the tss keeper it rewrites member records (activity flag) only
+//@ func (cb TSSCallback) OnSigningTimeout
+//@ trusted
+//@ may_panic calls
+//@ modifies Other, Bank, Store_tss
+//@ ensures forall q Bz :: !iskey(MemberStoreKey, q) ==> Store_tss[q] == old(Store_tss)[q]
 //@ func (ams AssignedMembers) PubNonces
 //@ abstract
 
@@ -91,3 +97,21 @@ package types
 //@ func (cb TSSCallback) OnGroupCreationExpired
 //@ trusted
 //@ modifies Other, Bank
+
+// ---- C03/C04: stateless message validation the handlers rely on ---------------------------------------------------
+// a complaint names two different, non-zero members
+//@ func (c Complaint) Validate
+//@ ensures err == nil ==> c.Complainant != 0 && c.Respondent != 0 && c.Complainant != c.Respondent
+// C04: a complain message carries at least one complaint and ALL its complaints are made by the same member (the
+// handler authenticates the sender against the first complaint's complainant only, and a failed complaint is blamed
+// on the complaint's own complainant - so a complaint "by" someone else would blame an uninvolved member)
+//@ func (m MsgComplain) ValidateBasic
+//@ ensures err == nil ==> m.GroupID != 0 && bech32ok(m.Sender) && len(m.Complaints) >= 1
+//@ ensures err == nil ==> (forall j :: 0 <= j && j < len(m.Complaints) ==> m.Complaints[j].Complainant == m.Complaints[0].Complainant
+//@        && m.Complaints[j].Complainant != 0 && m.Complaints[j].Respondent != 0 && m.Complaints[j].Complainant != m.Complaints[j].Respondent)
+//@ loop 0: invariant forall j :: 0 <= j && j < #i ==> m.Complaints[j].Complainant == m.Complaints[0].Complainant
+//@        && m.Complaints[j].Complainant != 0 && m.Complaints[j].Respondent != 0 && m.Complaints[j].Complainant != m.Complaints[j].Respondent
+// C03: a signature share reaches the handler only in the exact 65-byte encoding (the handler reads R and S by offset;
+// anything longer would pass its checks and then break aggregation)
+//@ func (m MsgSubmitSignature) ValidateBasic
+//@ ensures err == nil ==> m.SigningID != 0 && m.MemberID != 0 && bech32ok(m.Signer) && tss.sigWellFormed(m.Signature)
